@@ -65,10 +65,14 @@ def rulesets(tier):
         'D1': [(.5, ['1']), (.3, ['2']), (.1, ['3', '4'])],
         'O1': [(.7, ['!']), (.3, ['#'])],
         'M': [(.5, ['1']), (.5, ['2'])],
+        # letters whose upper case is longer than one character: masks are applied letter by letter
+        'A2': [(.3, ['a\u00df', '\u00dfa']), (.4, ['\ufb01x'])],
+        'C2': [(.5, ['LL']), (.25, ['UU', 'LU'])],
     }
     out.append(('mixed', t, [(.5, ['A1', 'C1', 'D1']), (.3, ['D1']), (.2, ['O1', 'D1'])]))
     # the same variable type at several positions of one structure (the walk must keep the positions apart)
     out.append(('repeated type', t, [(.6, ['D1', 'O1', 'D1']), (.3, ['D1', 'D1']), (.1, ['A1', 'C1', 'A1', 'C1'])]))
+    out.append(('length-changing upper case', t, [(.7, ['A2', 'C2']), (.3, ['D1', 'A2', 'C2', 'O1'])]))
     out.append(('with markov', t, [(.4, ['D1']), (.4, ['M']), (.2, ['A1', 'C1'])]))
     for n in (7, 13, 19) if tier == 'quick' else (3, 6, 7, 10, 13, 14, 19, 23):
         tt = {'D1': [(1.0 / n, ['%d' % i]) for i in range(n)]}
